@@ -47,6 +47,10 @@ def dump (st : State) (o : Outcome) : String :=
   let ring := ",".intercalate ((ringDump st).map fun p => s!"{p.1}:{p.2}")
   s!"res={o.str} tip={tip} lc=[{lc}] utxo=[{showList (sortNat st.utxo)}] inlc=[{inlc}] blocks=[{blocks}] ring=[{ring}]"
 
+/-- ids the ring dump of the `ring` commands looks at: everything up to the largest id stored, plus one ring length -/
+def ringSpan (st : State) : Nat :=
+  (st.ring.foldl (fun a p => p.2.ents.foldl (fun a e => maxOf a e.2) a) 0) + 2 * st.gp + 2
+
 def step (d : DS) (line : String) : DS × String :=
   match line.trimAscii.toString.splitOn " " with
   | "flags" :: kvs => ({ d with fl := kvs.foldl setFlag d.fl }, "-")
@@ -69,6 +73,27 @@ def step (d : DS) (line : String) : DS × String :=
       | .panic => (d, "res=panic")
       | _ => ({ d with st := st' }, dump st' o)
     | _, _, _, _, _ => (d, "bad-op")
+  -- by-height index on its own (BlockRing / RingItem): `ring add|on|off|del <id> <hash>`, answered with the index dump
+  | ["ring", cmd, i, h] =>
+    match i.toNat?, h.toNat? with
+    | some i, some h =>
+      let st := d.st
+      let slot := slotOf st i
+      let st' : Option State := match cmd with
+        | "add" => some { st with ring := setItem st.ring slot ((getItem st.ring slot).add i h), ringEmpty := false }
+        | "on" => some (ringReorg st i h true)
+        | "off" => some (ringReorg st i h false)
+        | "del" => some { st with ring := setItem st.ring slot ((getItem st.ring slot).delete d.fl i h) }
+        | _ => none
+      match st' with
+      | some st' =>
+        let tip := match latest st' with
+          | some (a, b) => s!"{a}:{b}"
+          | none => "panic"
+        let lc := ",".intercalate ((List.range (ringSpan st')).filterMap fun k => (lcHashAt st' k).map fun x => s!"{k}:{x}")
+        ({ d with st := st' }, s!"tip={tip} lc=[{lc}]")
+      | none => (d, "bad-op")
+    | _, _ => (d, "bad-op")
   | _ => (d, "bad-op")
 
 partial def loop (h out : IO.FS.Stream) (d : DS) : IO Unit := do
